@@ -39,6 +39,11 @@ scrape_configs:
   - targets: ['unused:1']
 - job_name: j2
   metric_relabel_configs:
+  - source_labels: [code]
+    regex: "200"
+    target_label: keep
+    replacement: "no"
+    action: replace
   - source_labels: [keep]
     regex: "no"
     action: drop
@@ -59,6 +64,8 @@ func JobRelabel(job string) []*relabel.Config {
 		return []*relabel.Config{{SourceLabels: []model.LabelName{"__name__"}, Regex: mustRegex("drop_.*"), Action: relabel.Drop, Separator: ";", Replacement: "$1"}}
 	case "j2":
 		return []*relabel.Config{
+			// a rewriting rule feeding the drop rule after it: a sample with code="200" is dropped as well
+			{SourceLabels: []model.LabelName{"code"}, Regex: mustRegex("200"), TargetLabel: "keep", Replacement: "no", Action: relabel.Replace, Separator: ";"},
 			{SourceLabels: []model.LabelName{"keep"}, Regex: mustRegex("no"), Action: relabel.Drop, Separator: ";", Replacement: "$1"},
 			{Regex: mustRegex("drop_label"), Action: relabel.LabelDrop, Separator: ";", Replacement: "$1"},
 		}
